@@ -10,6 +10,7 @@
 //! Oracle case: `case <id> fmt=oracle kind=c07 type=<type>` with ops `bytes <hex>`.
 #![allow(dead_code)]
 use super::super::common::*;
+use super::arms;
 use smoltcp::phy::{ChecksumCapabilities, Medium};
 use smoltcp::wire::*;
 use std::collections::BTreeMap;
@@ -575,6 +576,13 @@ fn p_iphc(b: &[u8], p: &mut P) {
         p.acc("dst_addr", || f.dst_addr().is_ok());
         p.acc("header_len", || f.header_len());
         p.acc("payload", || f.payload().len());
+        let c1 = arms::ctx1();
+        for ll in arms::lls() {
+            for ctx in [&[][..], &c1[..]] {
+                p.acc("src_addr().resolve", || f.src_addr().map(|u| u.resolve(ll, ctx).is_ok()));
+                p.acc("dst_addr().resolve", || f.dst_addr().map(|u| u.resolve(ll, ctx).is_ok()));
+            }
+        }
     }
     let ctx = [SixlowpanAddressContext([0x20, 0x01, 0x0d, 0xb8, 0, 0, 0, 1])];
     for s in lls() {
@@ -588,6 +596,7 @@ fn p_nhcext(b: &[u8], p: &mut P) {
     if p.chk(|| SixlowpanExtHeaderPacket::new_checked(b)) {
         let f = SixlowpanExtHeaderPacket::new_unchecked(b);
         p.acc("extension_header_id", || f.extension_header_id());
+        p.acc("IpProtocol::from(extension_header_id)", || IpProtocol::from(f.extension_header_id()));
         p.acc("length", || f.length());
         p.acc("next_header", || f.next_header());
         p.acc("payload", || f.payload().len());
@@ -605,6 +614,33 @@ fn p_nhcudp(b: &[u8], p: &mut P) {
     for c in both_caps() {
         p.parse("SixlowpanUdpNhcRepr::parse", || SixlowpanUdpNhcRepr::parse(&SixlowpanUdpNhcPacket::new_unchecked(b), &v6a(), &v6b(), &c).map(|r| r.header_len()));
     }
+}
+
+/// RawHardwareAddress (the link-layer address carried by NDISC options): from_bytes is documented
+/// to panic beyond MAX_HARDWARE_ADDRESS_LEN, parse(medium) must answer Err for a wrong length
+fn p_rawhw(b: &[u8], p: &mut P) {
+    if b.len() > MAX_HARDWARE_ADDRESS_LEN {
+        return;
+    }
+    let raw = RawHardwareAddress::from_bytes(b);
+    p.acc("as_bytes / len / is_empty", || (raw.as_bytes().len(), raw.len(), raw.is_empty()));
+    p.parse("RawHardwareAddress::parse(Ethernet)", || raw.parse(Medium::Ethernet));
+    p.parse("RawHardwareAddress::parse(Ieee802154)", || raw.parse(Medium::Ieee802154));
+    p.display("RawHardwareAddress", || raw);
+}
+/// 16 octets = an IPv6 destination: source address selection (the public path to
+/// `Ipv6Address::x_multicast_scope`) must not panic for any destination but `::`
+fn p_scope(b: &[u8], p: &mut P) {
+    if b.len() != 16 {
+        return;
+    }
+    let a = Ipv6Address::from_octets(b.try_into().unwrap());
+    p.calls += 1;
+    if arms::source_address_for(a).is_none() {
+        p.panics.push(("accessor-panic", "Interface::get_source_address_ipv6".into()));
+    }
+    let cidr = Ipv6Cidr::new(a, (b[15] % 129) as u8);
+    p.acc("Ipv6Cidr contains / network", || (cidr.contains_addr(&v6a()), cidr.address()));
 }
 
 // ---------------------------------------------------------------- base packets
@@ -942,6 +978,17 @@ fn b_nhcudp(r: &mut Rng) -> Vec<u8> {
     v.extend(r.bytes(n));
     v
 }
+fn b_rawhw(r: &mut Rng) -> Vec<u8> {
+    let n = *r.pick(&[6usize, 8, 2, 0, 1, 5, 7]);
+    r.bytes(n)
+}
+fn b_scope(r: &mut Rng) -> Vec<u8> {
+    let mut a = r.bytes(16);
+    if r.chance(1, 2) {
+        a[0] = 0xff;
+    }
+    a
+}
 fn b_rand(r: &mut Rng) -> Vec<u8> {
     let n = r.below(48) as usize;
     r.bytes(n)
@@ -972,6 +1019,8 @@ const TYPES: &[Ty] = &[
     Ty { name: "sixlowpan-iphc", probe: p_iphc, base: b_iphc, fields: &[(0, 1), (1, 2), (2, 3)] },
     Ty { name: "sixlowpan-nhc-ext", probe: p_nhcext, base: b_nhcext, fields: &[(0, 1), (1, 2), (2, 3)] },
     Ty { name: "sixlowpan-udpnhc", probe: p_nhcudp, base: b_nhcudp, fields: &[(0, 1), (1, 2), (1, 3)] },
+    Ty { name: "hardware-address", probe: p_rawhw, base: b_rawhw, fields: &[] },
+    Ty { name: "ipv6-scope", probe: p_scope, base: b_scope, fields: &[(0, 1), (1, 2)] },
 ];
 
 /// type-specific structured mutations on top of `mutations`
@@ -1053,6 +1102,8 @@ fn inputs(r: &mut Rng, t: &Ty, tier: &str) -> Vec<Vec<u8>> {
     let base = (t.base)(r);
     let mut v = mutations(r, &base, t.fields, tier);
     v.extend(special(r, t.name, &base));
+    // dictionary inputs aimed at the rarely taken error / corner arms (wire/arms.rs)
+    v.extend(arms::directed(t.name, r));
     v
 }
 
@@ -1110,11 +1161,13 @@ pub fn run(seed: u64, n: usize, tier: &str, out: &mut dyn Write) {
     let mut fail_lines: Vec<String> = vec![];
     let (mut inputs_n, mut calls, mut chk_ok, mut parse_ok, mut panics) = (0u64, 0u64, 0u64, 0u64, 0u64);
     let mut buf: Vec<u8> = vec![];
+    let mut hits: arms::Hits = arms::ARMS.iter().map(|a| (a.0, 0u64)).collect();
     for i in 0..n {
         let t = &TYPES[i % TYPES.len()];
         *per_type.entry(t.name.into()).or_default() += 1;
         for b in inputs(&mut rng, t, tier) {
             inputs_n += 1;
+            arms::observe(t.name, &b, &mut hits);
             let p = run_one(t, &b, &w);
             calls += p.calls;
             chk_ok += p.checked_ok as u64;
@@ -1142,6 +1195,8 @@ pub fn run(seed: u64, n: usize, tier: &str, out: &mut dyn Write) {
     let mut all = vec![format!("\"cases\":{}", n), format!("\"types\":{}", TYPES.len()), format!("\"inputs\":{}", inputs_n), format!("\"calls\":{}", calls), format!("\"new_checked_ok\":{}", chk_ok), format!("\"parse_ok\":{}", parse_ok), format!("\"panics\":{}", panics)];
     all.extend(pt);
     all.extend(pc);
+    // hits of the error / corner arms listed in wire/arms.rs (all inputs, generic and directed)
+    all.extend(hits.iter().map(|(k, v)| format!("{}:{}", jstr(&format!("arm_{}", k)), v)));
     writeln!(out, "STATS {{{}}}", all.join(",")).unwrap();
 }
 
